@@ -223,7 +223,7 @@ def tag_twin_merge(trace, shard_index=0):
         f.write("\n".join(out) + "\n")
 
 
-def cross_build(name, scenario, build_a="std", build_b="alloc", prop="C18", jobs=8, known=None):
+def cross_build(name, scenario, build_a="std", build_b="alloc", prop="C18", jobs=8, known=None, stateless_only=False):
     """Records the same scenario on two builds and hands build_b's observation of every operation to the
     trace specification as the `twin` of build_a's (they must be observationally identical)."""
     wdir = ensure(os.path.join(WORK, "cross_%d_%s" % (os.getpid(), name)))
@@ -240,6 +240,17 @@ def cross_build(name, scenario, build_a="std", build_b="alloc", prop="C18", jobs
         for j, e in enumerate(evs):
             if j < len(other[i]) and e.get("op") in ("line", "unarmor", "decode") and other[i][j].get("op") == e.get("op"):
                 a = other[i][j]
+                if stateless_only:
+                    # the other build has fixed capacities: after a capacity rejection its reassembly history
+                    # legitimately differs, so only history-free operations are paired (pure operations and
+                    # unfragmented sentences), and only when the other build produced a value (an error there is
+                    # judged by that build's own trace validation)
+                    if a.get("r") not in ("ok", "complete"):
+                        out.append(json.dumps(e, separators=(",", ":")))
+                        continue
+                    if e.get("op") == "line" and not (a.get("s", {}).get("n") == 1 and a.get("s", {}).get("k") == 1):
+                        out.append(json.dumps(e, separators=(",", ":")))
+                        continue
                 e["twin"] = {k: a[k] for k in ("r", "s", "ck", "msg", "out") if k in a}
                 e["twinprop"], e["twinmode"], e["twinwhy"] = prop, "full", "%s-vs-%s" % (build_a, build_b)
             out.append(json.dumps(e, separators=(",", ":")))
